@@ -39,3 +39,28 @@ func VerifNewID(ssid Ssid) (id ID, unix int64, seq uint32, uniq uint32) {
 
 // VerifSetNext positions the id sequence counter (to reach the wrap-around quickly).
 func VerifSetNext(v uint32) { atomic.StoreUint32(&next, v) }
+
+// VerifTrieDump reports the number of live trie nodes and every (ssid, subscriber id) pair.
+func (t *Trie) VerifTrieDump() (nodes int, pairs [][2]string) {
+	t.RLock()
+	defer t.RUnlock()
+	var walk func(n *node, path Ssid)
+	walk = func(n *node, path Ssid) {
+		nodes++
+		for _, s := range n.subs {
+			p := ""
+			for i, w := range path {
+				if i > 0 {
+					p += "."
+				}
+				p += strconv.FormatUint(uint64(w), 10)
+			}
+			pairs = append(pairs, [2]string{p, s.ID()})
+		}
+		for w, c := range n.children {
+			walk(c, append(append(Ssid{}, path...), w))
+		}
+	}
+	walk(t.root, nil)
+	return
+}
